@@ -18,6 +18,9 @@ structure St where
   /-- identities of the foreign errors whose dynamic type is not comparable (slice, map, func kinds): `errors.Is` never
       compares against them -/
   uncmp : List Nat := []
+  /-- the Go type of every foreign error made by `plain`, as a tag (2 errors.New, 3 struct, 4 string, 5 int, 6 slice, 7 map,
+      8 func, 9 chan) -/
+  types : List (Nat × Nat) := []
 
 def St.heap (s : St) : Heap := s.fh.h
 
@@ -78,6 +81,19 @@ def rendering (s : St) : Val → String
       hexOfStr (fmtV s.heap s.fh.T id)
   | _ => ""
 
+def kindTag (kind : String) : Nat :=
+  if kind == "struct" then 3 else if kind == "string" then 4 else if kind == "int" then 5
+  else if kind == "slice" || kind == "slice0" then 6 else if kind == "map" then 7 else if kind == "func" then 8
+  else if kind == "chan" then 9 else 2
+
+/-- the dynamic type of a value as a tag: 0 `*errs.Error`, 1 the harness's foreign wrapper, 2.. the foreign error types -/
+def St.ty (s : St) : Val → Nat
+  | .ref _ => 0
+  | .typedNil => 0
+  | .fwrap _ _ _ => 1
+  | .plain uid _ => (s.types.lookup uid).getD 2
+  | _ => 100
+
 /-- is `==` defined for the dynamic type of the value? -/
 def St.cmp (s : St) : Val → Bool
   | .plain uid _ => !s.uncmp.contains uid
@@ -95,6 +111,20 @@ def exec (s : St) (k : Nat) (op : String) (args : List String) : St × String :=
     | some a, some b =>
       let r := assign s k s.heap (s.get a)
       (r.1, r.2 ++ " IS:" ++ (if s.get b == .foreignNil then "skip" else walkText (errorsIs s.heap s.cmp (s.get a) (s.get b))))
+    | _, _ => (s, "bad-op")
+  | "asf", [a, b] =>   -- errors.As(a, &target) with target of the dynamic type of b; the result is the value found
+    match varIx? a, varIx? b with
+    | some a, some b =>
+      let v := s.get a
+      let t := s.get b
+      if t == .nilIface || t == .foreignNil || endsForeignNil s.heap (walkFuel s.heap v) v then
+        let r := assign s k s.heap .nilIface
+        (r.1, r.2 ++ " AS:skip")
+      else
+        match errorsAs s.heap s.ty (s.ty t) v with
+        | .found w => let r := assign s k s.heap w; (r.1, r.2 ++ " AS:1")
+        | .none => let r := assign s k s.heap .nilIface; (r.1, r.2 ++ " AS:0")
+        | .panics => let r := assign s k s.heap .nilIface; (r.1, r.2 ++ " AS:panic")
     | _, _ => (s, "bad-op")
   | "as", [a] =>
     match varIx? a with
@@ -125,7 +155,7 @@ def exec (s : St) (k : Nat) (op : String) (args : List String) : St × String :=
   | "empty", [] => assignF s k (newEmptyF s.fh)
   | "plain", [m] | "plain", [m, "ptr"] =>
     match strOfHex? m with
-    | some m => assign { s with uid := s.uid + 1 } k s.heap (.plain s.uid m)
+    | some m => assign { s with uid := s.uid + 1, types := (s.uid, 2) :: s.types } k s.heap (.plain s.uid m)
     | none => (s, "bad-op")
   | "plain", [m, kind] =>   -- a non-nil foreign error of another kind: still just a foreign error with a message
     match strOfHex? m with
@@ -133,11 +163,14 @@ def exec (s : St) (k : Nat) (op : String) (args : List String) : St × String :=
       if kind == "struct" || kind == "string" || kind == "int" then
         match s.valueErrs.findIdx? (fun p => p == (kind, m)) with
         | some i => assign s k s.heap (.plain (1000000 + i) m)
-        | none => assign { s with valueErrs := s.valueErrs ++ [(kind, m)] } k s.heap (.plain (1000000 + s.valueErrs.length) m)
+        | none => assign { s with valueErrs := s.valueErrs ++ [(kind, m)],
+                                  types := (1000000 + s.valueErrs.length, kindTag kind) :: s.types } k s.heap
+                    (.plain (1000000 + s.valueErrs.length) m)
       else if kind == "chan" then
-        assign { s with uid := s.uid + 1 } k s.heap (.plain s.uid m)
+        assign { s with uid := s.uid + 1, types := (s.uid, kindTag kind) :: s.types } k s.heap (.plain s.uid m)
       else if kind == "slice" || kind == "slice0" || kind == "map" || kind == "func" then
-        assign { s with uid := s.uid + 1, uncmp := s.uid :: s.uncmp } k s.heap (.plain s.uid m)
+        assign { s with uid := s.uid + 1, uncmp := s.uid :: s.uncmp, types := (s.uid, kindTag kind) :: s.types } k s.heap
+          (.plain s.uid m)
       else (s, "bad-op")
     | none => (s, "bad-op")
   | "new", [m] | "newf", [m] =>
